@@ -101,6 +101,40 @@ def _fold(node, env):
         raise _NoFold()
     if isinstance(node, ast.Tuple):
         return tuple(_fold(e, env) for e in node.elts)
+    if isinstance(node, ast.Compare):
+        left = _fold(node.left, env)
+        res = True
+        for op, c in zip(node.ops, node.comparators):
+            right = _fold(c, env)
+            try:
+                if isinstance(op, ast.Lt):
+                    r = left < right
+                elif isinstance(op, ast.LtE):
+                    r = left <= right
+                elif isinstance(op, ast.Gt):
+                    r = left > right
+                elif isinstance(op, ast.GtE):
+                    r = left >= right
+                elif isinstance(op, ast.Eq):
+                    r = left == right
+                elif isinstance(op, ast.NotEq):
+                    r = left != right
+                elif isinstance(op, ast.Is):
+                    r = left is right
+                elif isinstance(op, ast.IsNot):
+                    r = left is not right
+                else:
+                    raise _NoFold()
+            except TypeError:
+                raise _NoFold()
+            res = res and r
+            left = right
+        return res
+    if isinstance(node, ast.BoolOp):
+        vals = [_fold(v, env) for v in node.values]
+        if isinstance(node.op, ast.And):
+            return all(vals)
+        return any(vals)
     if isinstance(node, ast.Call) and isinstance(node.func, ast.Name) and node.func.id == "float" and len(node.args) == 1:
         v = _fold(node.args[0], env)
         if isinstance(v, str) and v.strip().lower() in ("inf", "-inf", "+inf", "infinity", "-infinity"):
